@@ -23,7 +23,7 @@ import ast
 
 from .. import kinds
 from .. import seqterm as S
-from ..flow import dominating_tests
+from ..flow import dominating_tests, effective_body
 from ..model import model_of
 from ..siblings import get_siblings
 from ..source import AnalysisError, calls_in, dotted, enclosing_function, norm, parent, qual_of
@@ -124,7 +124,7 @@ def run(chk):
            "C.name is no longer resolved against the table the verb is applied to")  # fmt: skip
     chk.ob("R2", vb, inner, "preprocess recurses into every child (map_children with itself)", "new.map_children(" in isrc and "_preprocess_expr" in isrc.split("new.map_children(")[1][:120],
            "nested references are not resolved / checked")  # fmt: skip
-    chk.ob("R2", vb, pa, "preprocess_arg wraps python literals first", norm(pa.body[0] if not isinstance(pa.body[0], ast.Expr) else pa.body[1]) == "arg = wrap_literals(arg)",
+    chk.ob("R2", vb, pa, "preprocess_arg wraps python literals first", bool(effective_body(pa)) and norm(effective_body(pa)[0]) == "arg = wrap_literals(arg)",
            "verb arguments are no longer wrapped into expressions before resolution")  # fmt: skip
     jf = vb.func("join")
     pre = vb.func("join._preprocess_on")
